@@ -4,7 +4,7 @@
 # the machinery built from it into a private directory, the property's quick tier run, and everything removed again.
 # Output: one line per seed "round id rc ..." ; rc=1 means caught, rc=0 missed, "noapply" = patch no longer applies.
 cd /verif
-rounds=${@:-seeded seeded2 seeded3 seeded4 seeded5 seeded6}
+rounds=${@:-seeded seeded2 seeded3 seeded4 seeded5 seeded6 seeded7}
 for r in $rounds; do
   for dir in $r/C*; do
     id=$(basename $dir)
